@@ -65,3 +65,12 @@ def err_pdu(tag, status):
     return tlv(tag, tlv(0x04, be(status)) + tlv(0x05, b"err\x00"))
 
 
+
+
+def ext_reply(ver, rid, status, cal, alg=1, key=b"anon", with_status=True, extra=b""):
+    """an extension reply PDU (v1 / v2) carrying the calendar chain object `cal` (None = no chain)"""
+    body = tlv(0x01, be(rid)) + (tlv(0x04, be(status)) if with_status else b"") + (tlv(0x05, b"no\x00") if status else b"")
+    body += (cal.enc() if cal is not None else b"") + extra
+    if ver == 2:
+        return pdu_v2(0x321, tlv(0x02, body), alg, key)
+    return pdu_v1(0x300, tlv(0x302, body), alg, key)
